@@ -59,7 +59,7 @@ class Contract:
                  raises=None, may_raise=(), defines=None, loops=None, ghosts=(), locals=None,
                  ghost_init=None, trusted=False, inline=False, note="", props=(),
                  ghost_params=None, result_name="result", lemmas=(), pure=True,
-                 must_raise=None, logs=None, map_keys=None, raise_allowed=None, ghost_results=None, call_site=True):
+                 must_raise=None, logs=None, map_keys=None, raise_allowed=None, ghost_results=None, call_site=True, silent=None):
         self.key = key
         self.inst = inst
         self.params = OrderedDict(params)
@@ -91,6 +91,14 @@ class Contract:
         self.always_raises = False
         self.ghost_results = OrderedDict(ghost_results or {})
         self.call_site = call_site    # False: verified only, never used at call sites
+        # silent: the function logs no warning (default unless a clause mentions _warnings)
+        self.silent = silent
+
+    @property
+    def is_silent(self):
+        if self.silent is not None:
+            return self.silent
+        return not any("_warnings" in t for _, t in self.ensures)
 
     @property
     def name(self):
@@ -131,9 +139,13 @@ class Registry:
         for c in cands:
             ok = c.call_site
             for p, b in c.conc_bindings().items():
-                if p in conc_args and conc_args[p] is not b.get():
-                    ok = False
-                    break
+                if p in conc_args:
+                    want, got = b.get(), conc_args[p]
+                    same = got is want or (isinstance(want, tuple) and isinstance(got, tuple) and len(got) == len(want)
+                                           and all(x is y for x, y in zip(got, want)))
+                    if not same:
+                        ok = False
+                        break
             if ok and args is not None:
                 from . import values as V
                 for p, sh in c.params.items():
